@@ -406,6 +406,7 @@ func C06(p *ir.Program, r *report.R) {
 	// ---- value ledger ---------------------------------------------------------------------------------------
 	c06Ledger(c)
 	c06Flows(c)
+	saveUtxoStoresImages(c)
 }
 
 // c06Flows: the flows that connect the reviewed ledger sites.
@@ -556,6 +557,25 @@ func c06Flows(c C) {
 			c.MustFind("K1", "types.(*"+tn+").IllegalGasLimitOrGasPrice/accept", fn, n, "accepting return")
 		}
 		r.Check("K11", "value-ledger/fee/par-price-constant", "-", fmt.Sprint(c.ConstInt("types", "ParGasPrice")) == "100000000000", "ParGasPrice is the constant the rules above name")
+	}
+
+	// (2b) the token refund of a failed confidential->account transaction is the account outputs minus
+	// the account inputs of that transaction
+	{
+		rg := p.Func("app", "processTransaction.refundGas")
+		okAdd, okSub := false, false
+		for _, call := range ir.Calls(rg, "big.Int.Add") {
+			if ir.Match("tx.Outputs[*].Amount", Arg(call, 2)) && Arg(call, 0) == Arg(call, 1) && ir.HasFact(ir.FactsAt(call.(ssa.Instruction)), "!eq(tx.Outputs[*].Type,\"uout\")") {
+				okAdd = true
+			}
+		}
+		for _, call := range ir.Calls(rg, "big.Int.Sub") {
+			if ir.Match("tx.Inputs[*].Value", Arg(call, 2)) && Arg(call, 0) == Arg(call, 1) && ir.HasFact(ir.FactsAt(call.(ssa.Instruction)), "!eq(tx.Inputs[*].Type,\"uin\")") {
+				okSub = true
+			}
+		}
+		r.Check("K5", "value-ledger/refund/adds-account-outputs", p.Pos(rg.Pos()), okAdd, "the refund accumulates the Amount of every non-confidential output")
+		r.Check("K5", "value-ledger/refund/subtracts-account-inputs", p.Pos(rg.Pos()), okSub, "and subtracts the Value of every non-confidential input")
 	}
 
 	// (3) the transaction layer moves what the transaction says: for every account transaction kind the
